@@ -477,6 +477,29 @@ def run(ck, ix, tier):
     outcomes = [v for r in rets for v, _cond in _cases(r.value, f.node)]
     is_ratio = lambda v: not isinstance(v, ast.Constant) and any(isinstance(x, ast.BinOp) and isinstance(x.op, ast.Div) for x in ast.walk(shape.resolve(v, f.node)))
     ck.check(any(isinstance(v, ast.Constant) and v.value is None for v in outcomes) and any(is_ratio(v) for v in outcomes), "G-PROV", "_get_dimensionality_ratio|none-or-common-ratio", f.loc(), "returns None or the common ratio", "the function no longer answers None / the common ratio")
+    # "not comparable" (an empty dimensionality on either side, different dimension names) may only be answered where the
+    # two dimensionalities are already known to DIFFER: two dimensionless units (radian, degree; bit, byte) have equal,
+    # empty dimensionalities and must get the ratio 1 so that they are merged
+    dims_eq = lambda a_: isinstance(a_, ast.Compare) and len(a_.ops) == 1 and isinstance(a_.ops[0], ast.Eq) and \
+        all("get_dimensionality" in shape.rnorm(x, f.node) for x in (a_.left, a_.comparators[0]))
+    nones = [r for r in rets for v, _c in _cases(r.value, f.node) if isinstance(v, ast.Constant) and v.value is None]
+    ck.floor("G-DOM", len(nones), 1, "None answers of _get_dimensionality_ratio")
+    for r in nones:
+        ck.check(shape.holds_at(r, f.node, dims_eq, False), "G-DOM", "_get_dimensionality_ratio|none-only-for-different-dimensionalities", f.loc(r), "None is answered only where the dimensionalities are known to differ",
+                 f"`{norm(r)}` can be reached although the two dimensionalities are equal (the equality shortcut does not come first): two dimensionless units get None instead of 1 and are never merged by to_reduced_units")
+    # the in-place forms obtain their new magnitude from the same conversion primitive as the functional forms
+    for q_ in ("PlainQuantity.ito", "PlainQuantity.ito_root_units", "PlainQuantity.ito_base_units"):
+        g = ix.func(PQ, q_)
+        ck.analysed(g)
+        from ..lib import inlined as _inl
+        g = _inl(ix, g)           # a private helper that holds the store (called with *args / **kwargs) is looked through
+        stores = [a_ for a_ in ast.walk(g.node) if isinstance(a_, ast.Assign) and any(norm(t_) == "self._magnitude" for t_ in a_.targets)]
+        ck.floor("G-TWIN", len(stores), 1, f"stores to self._magnitude in {q_}")
+        for a_ in stores:
+            rv = shape.resolve(a_.value, g.node)
+            ck.check(isinstance(rv, ast.Call) and call_name(rv).startswith("_convert_magnitude") and isinstance(rv.func, ast.Attribute) and norm(rv.func.value) == "self", "G-TWIN",
+                     f"{q_}|magnitude-from-the-conversion-primitive", g.loc(a_), "the new magnitude is self._convert_magnitude(...)",
+                     f"`{norm(a_)}` computes the new magnitude without self._convert_magnitude(...): the in-place form then differs from the functional one (no Decimal/Fraction coercion of the factor, no offset/context handling)")
     from .C16 import inplace_primitives_rule
     inplace_primitives_rule(ck, ix)  # only in-place forms may rescale/rebind their target
     from .. import memo as _memo
